@@ -12,6 +12,7 @@ package main
 
 import (
 	"go/token"
+	"go/types"
 	"strings"
 
 	"golang.org/x/tools/go/ssa"
@@ -242,4 +243,105 @@ func variadicElemsOrdered(sl ssa.Value) []ssa.Value {
 		out[k] = v
 	}
 	return out
+}
+
+// freshBytes: v is a byte slice that shares no memory with any earlier storage: made here
+// (make, append to nil/an empty literal, a conversion from a string), a Clone, or the result
+// of a module helper every return of which is one (ownedIP: make + copy).
+func (w *World) freshBytes(v ssa.Value, depth int) bool {
+	if depth > 4 || v == nil {
+		return false
+	}
+	v = w.resolveLoad(v)
+	switch x := v.(type) {
+	case *ssa.MakeSlice:
+		return true
+	case *ssa.ChangeType:
+		return w.freshBytes(x.X, depth)
+	case *ssa.Convert:
+		if b, ok := x.X.Type().Underlying().(*types.Basic); ok && b.Info()&types.IsString != 0 {
+			return true
+		}
+		return w.freshBytes(x.X, depth)
+	case *ssa.Phi:
+		for _, e := range x.Edges {
+			if !w.freshBytes(e, depth+1) {
+				return false
+			}
+		}
+		return len(x.Edges) > 0
+	case *ssa.Call:
+		if b, ok := x.Call.Value.(*ssa.Builtin); ok && b.Name() == "append" && len(x.Call.Args) > 0 {
+			base := stripIface(w.resolveLoad(x.Call.Args[0]))
+			if isNilConst(base) {
+				return true
+			}
+			if sl, isSl := base.(*ssa.Slice); isSl {
+				if al, isAl := sl.X.(*ssa.Alloc); isAl && al.Heap {
+					return true // append([]byte{}, …)
+				}
+			}
+			return w.freshBytes(base, depth+1)
+		}
+		switch stdCallee(&x.Call) {
+		case "slices.Clone", "bytes.Clone":
+			return true
+		}
+		h := x.Call.StaticCallee()
+		if h == nil || !w.IsMod[h] || len(h.Blocks) == 0 {
+			return false
+		}
+		rets := returnsOf(h)
+		for _, r := range rets {
+			if len(r.Results) == 0 || !w.freshBytes(r.Results[0], depth+1) {
+				return false
+			}
+		}
+		return len(rets) > 0
+	}
+	return false
+}
+
+// copiedFrom: v is a private copy of a byte slice made by slices.Clone / bytes.Clone /
+// append(nil, x...) or by a one-parameter module helper that copies its parameter into fresh
+// storage: the slice it is a copy of (nil otherwise).
+func (w *World) copiedFrom(v ssa.Value) ssa.Value {
+	c, ok := stripIface(w.resolveLoad(v)).(*ssa.Call)
+	if !ok {
+		if ct, isCT := stripIface(w.resolveLoad(v)).(*ssa.ChangeType); isCT {
+			return w.copiedFrom(ct.X)
+		}
+		return nil
+	}
+	switch stdCallee(&c.Call) {
+	case "slices.Clone", "bytes.Clone":
+		return c.Call.Args[0]
+	}
+	if b, isB := c.Call.Value.(*ssa.Builtin); isB && b.Name() == "append" && len(c.Call.Args) == 2 && w.freshBytes(c, 0) {
+		return c.Call.Args[1]
+	}
+	h := c.Call.StaticCallee()
+	if h == nil || !w.IsMod[h] || len(h.Params) != 1 || len(c.Call.Args) != 1 || !w.freshBytes(c, 0) {
+		return nil
+	}
+	copies := false
+	w.eachInstr(h, func(in ssa.Instruction) {
+		call, ok := in.(*ssa.Call)
+		if !ok {
+			return
+		}
+		if b, isB := call.Call.Value.(*ssa.Builtin); isB && (b.Name() == "copy" || b.Name() == "append") && len(call.Call.Args) == 2 {
+			if w.sameKey(call.Call.Args[1], h.Params[0]) || stripIface(w.resolveLoad(call.Call.Args[1])) == ssa.Value(h.Params[0]) {
+				copies = true
+			}
+		}
+		switch stdCallee(&call.Call) {
+		case "slices.Clone", "bytes.Clone":
+			copies = true
+		}
+	})
+	if copies {
+		return c.Call.Args[0]
+	}
+	return nil
 }
